@@ -26,6 +26,7 @@ import (
 	"encoding/binary"
 	"fmt"
 	"hash/crc32"
+	"io"
 	"net"
 	"runtime"
 	"sort"
@@ -1245,6 +1246,176 @@ func udpStrs(xs []string) string {
 
 func sortInts(xs []int) { sort.Ints(xs) }
 
+// A session WITHOUT FEC whose peer uses FEC (it receives FEC-framed packets and decodes them) is
+// still a session without FEC: the out-of-band calls are refused with an error, at any moment.
+func udpOOBRefusedCase(t *testing.T, id int, rep *vreport, rng *vrng, ci udpCipher) {
+	l, err := ListenWithOptions("127.0.0.1:0", ci.mk(), 2, 1)
+	if err != nil {
+		t.Fatal(err)
+	}
+	defer l.Close()
+	c, err := DialWithOptions(l.conn.LocalAddr().String(), ci.mk(), 0, 0)
+	if err != nil {
+		t.Fatal(err)
+	}
+	defer c.Close()
+	replay := map[string]any{"test": "TestVerifUDPOOB", "seed": vSeed(), "case": id, "cipher": ci.name, "kind": "session-without-fec"}
+	check := func(when string) {
+		rep.Monitors["udp_oob_refused_without_fec"]++
+		if err := c.SetOOBHandler(func([]byte) {}); err == nil {
+			rep.violate("oob-not-refused-without-fec", fmt.Sprintf("case %d (%s): SetOOBHandler on a session without FEC returned no error (%s)", id, ci.name, when), replay)
+		}
+		if n := c.GetOOBMaxSize(); n != 0 {
+			rep.violate("oob-not-refused-without-fec", fmt.Sprintf("case %d (%s): GetOOBMaxSize on a session without FEC returned %d (%s)", id, ci.name, n, when), replay)
+		}
+		if err := c.SendOOB([]byte("x")); err == nil {
+			rep.violate("oob-not-refused-without-fec", fmt.Sprintf("case %d (%s): SendOOB on a session without FEC returned no error (%s)", id, ci.name, when), replay)
+		}
+	}
+	check("fresh session")
+	c.Write([]byte("ping"))
+	l.SetReadDeadline(time.Now().Add(3 * time.Second))
+	s, err := l.AcceptKCP()
+	if err != nil {
+		rep.violate("udp-oob-no-accept", fmt.Sprintf("case %d (%s): the session without FEC was not accepted by the listener with FEC", id, ci.name), replay)
+		return
+	}
+	defer s.Close()
+	buf := make([]byte, 64)
+	s.SetReadDeadline(time.Now().Add(2 * time.Second))
+	s.Read(buf)
+	for i := 0; i < 6; i++ { // the peer's packets are FEC-framed: the session decodes them
+		s.Write([]byte(fmt.Sprintf("pong-%d", i)))
+		time.Sleep(3 * time.Millisecond)
+	}
+	c.SetReadDeadline(time.Now().Add(2 * time.Second))
+	n, _ := c.Read(buf)
+	check(fmt.Sprintf("after %d bytes of FEC-framed traffic from the peer were received", n))
+	rep.Cases++
+	if n > 0 {
+		rep.Nontrivial++
+	}
+}
+
+// ---------------------------------------------------------------- a saturated neighbour on the same socket
+
+// Two peers on ONE listener socket.  The accepted session of A is throttled (SetRateLimit) and given
+// far more to send than its transmit queue holds, so that its pipeline is saturated for a long time
+// while A's peer keeps acknowledging.  That is A's private problem: the session of B - another
+// remote address on the same socket, served by the same monitor goroutine - keeps echoing at once.
+func udpNeighbourCase(t *testing.T, id int, rep *vreport, rng *vrng, ci udpCipher) {
+	l, err := ListenWithOptions("127.0.0.1:0", ci.mk(), 0, 0)
+	if err != nil {
+		t.Fatal(err)
+	}
+	defer l.Close()
+	replay := map[string]any{"test": "TestVerifUDPNeighbour", "seed": vSeed(), "case": id, "cipher": ci.name}
+	dial := func(tag string) *UDPSession {
+		c, err := DialWithOptions(l.conn.LocalAddr().String(), ci.mk(), 0, 0)
+		if err != nil {
+			t.Fatal(err)
+		}
+		c.SetWindowSize(4096, 4096)
+		c.SetNoDelay(1, 10, 2, 1)
+		c.Write([]byte(tag))
+		return c
+	}
+	cliA, cliB := dial("A"), dial("B")
+	defer cliA.Close()
+	defer cliB.Close()
+	var srvA, srvB *UDPSession
+	l.SetReadDeadline(time.Now().Add(5 * time.Second))
+	for srvA == nil || srvB == nil {
+		s, err := l.AcceptKCP()
+		if err != nil {
+			rep.violate("udp-neighbour-no-accept", fmt.Sprintf("case %d (%s): two peers dialled, accept failed: %v", id, ci.name, err), replay)
+			return
+		}
+		s.SetWindowSize(4096, 4096)
+		s.SetNoDelay(1, 10, 2, 1)
+		tag := make([]byte, 1)
+		s.SetReadDeadline(time.Now().Add(5 * time.Second))
+		if _, err := io.ReadFull(s, tag); err != nil {
+			rep.violate("udp-neighbour-no-accept", fmt.Sprintf("case %d (%s): first byte of an accepted session: %v", id, ci.name, err), replay)
+			return
+		}
+		s.SetReadDeadline(time.Time{})
+		if tag[0] == 'A' {
+			srvA = s
+		} else {
+			srvB = s
+		}
+	}
+	defer srvB.Close()
+	defer func() { srvA.SetRateLimit(0); srvA.Close() }()
+	go func() { // B: echo
+		buf := make([]byte, 4096)
+		for {
+			n, err := srvB.Read(buf)
+			if err != nil {
+				return
+			}
+			if _, err := srvB.Write(buf[:n]); err != nil {
+				return
+			}
+		}
+	}()
+	echo := func(round int, limit time.Duration) (time.Duration, error) {
+		msg := bytes.Repeat([]byte{byte('a' + round%26)}, 100)
+		start := time.Now()
+		cliB.SetDeadline(start.Add(limit))
+		if _, err := cliB.Write(msg); err != nil {
+			return time.Since(start), err
+		}
+		got := make([]byte, len(msg))
+		if _, err := io.ReadFull(cliB, got); err != nil {
+			return time.Since(start), err
+		}
+		if !bytes.Equal(got, msg) {
+			return time.Since(start), fmt.Errorf("foreign bytes in B's stream")
+		}
+		return time.Since(start), nil
+	}
+	if d, err := echo(0, 5*time.Second); err != nil {
+		rep.violate("udp-neighbour-warmup", fmt.Sprintf("case %d (%s): B does not echo before anything happens on A: %v after %v", id, ci.name, err, d), replay)
+		return
+	}
+	go io.Copy(io.Discard, cliA) // A's peer keeps reading and acknowledging what trickles through
+	srvA.SetRateLimit(20000)
+	go func() {
+		srvA.SetWriteDeadline(time.Now().Add(20 * time.Second))
+		srvA.Write(make([]byte, 6<<20))
+	}()
+	time.Sleep(700 * time.Millisecond)
+	for round := 1; round <= 6; round++ {
+		rep.Monitors["udp_neighbour_echo"]++
+		d, err := echo(round, 6*time.Second)
+		if err != nil || d > 3*time.Second {
+			rep.violate("udp-neighbour-stalled", fmt.Sprintf("case %d (%s): session B (another address on the same listener socket) stalled behind session A, whose throttled transmit queue is saturated: echo round %d gave %v after %v", id, ci.name, round, err, d), replay)
+			break
+		}
+	}
+	rep.Cases++
+	rep.Nontrivial++
+}
+
+func TestVerifUDPNeighbour(t *testing.T) {
+	rng := newRng(vSeed() ^ 0x0DF)
+	rep := newReport("UDP-neighbour")
+	cs := udpCiphers()
+	n := 1
+	if vThorough() {
+		n = 3
+	}
+	for id := 0; id < n; id++ {
+		udpNeighbourCase(t, id, rep, rng, cs[(id*2)%len(cs)])
+	}
+	rep.write(t, "UDPneighbour.report.json")
+	for _, v := range rep.Violations {
+		t.Logf("violation %s: %s", v.Key, v.What)
+	}
+}
+
 // ---------------------------------------------------------------- tests
 
 func TestVerifUDPOOB(t *testing.T) {
@@ -1261,6 +1432,8 @@ func TestVerifUDPOOB(t *testing.T) {
 				udpOOBCase(t, id, rep, rng, ci, f[0], f[1])
 				id++
 			}
+			udpOOBRefusedCase(t, id, rep, rng, ci)
+			id++
 		}
 	}
 	rep.write(t, "UDPoob.report.json")
